@@ -164,8 +164,9 @@ class Deseasonalizer(_SeriesToSeriesTransformer):
         self : an instance of self
         """
         self.check_is_fitted()
-        z = check_series(Z, enforce_univariate=True)
-        self._set_y_index(z)
+        check_series(Z, enforce_univariate=True)
+        # the fitted seasonal component stays aligned with the training series, so
+        # the reference index must not move with the new data
         return self
 
 
